@@ -253,7 +253,7 @@ func runCase(t *rapid.T) {
 	if err != nil {
 		t.Fatalf("C01 harness: cannot build %s: %v", tree, err)
 	}
-	defer b.Close()
+	defer b.Release()
 	m := &machine{t: t, b: b, sto: b.Root, model: vmodel.New(), pool: pool, desc: tree.String(),
 		mutated: map[blob.Ref]bool{}, removed: map[blob.Ref]bool{}}
 	for _, pb := range pool {
